@@ -157,6 +157,14 @@ def run(model, col, tier):
         ctext = None
     col.check(good, "R20.1", f"{PARSER}::NslParser.__GetLocation span", "span = (lexpos(k), lexpos(k) + len(p[k]))",
               f"span is {ctext}; expected (lexpos(k), lexpos(k) + len(p[k])) of the same symbol", PARSER, gl)
+    # what the helper returns on every path is that token span and nothing merged into it: at parse time composite nodes still
+    # carry the unknown range (-1, -1), so a hull taken here drags the begin to -1 (the hull of composites is UpdateLocations' job)
+    merged = [c for c in ast.walk(gl) if isinstance(c, ast.Call) and last_attr(c) in ("Merge", "GetLocation")]
+    rets_gl = [resolve(r.value, gl_env) for r in ast.walk(gl) if isinstance(r, ast.Return) and r.value is not None]
+    plain = bool(rets_gl) and all(isinstance(r, ast.Call) and last_attr(r) == "Location" for r in rets_gl)
+    col.check(not merged and plain, "R20.1", f"{PARSER}::NslParser.__GetLocation returns the token's own span", "every return is Location(<token span>); no other location is merged in",
+              f"__GetLocation merges other locations into the token span (`{' '.join(unparse(merged[0]).split())[:60] if merged else [unparse(r)[:40] for r in rets_gl]}`): parts that are not located yet "
+              "contribute the unknown range, so the reported range starts at offset -1", PARSER, gl)
     col.check(bool(mk) and len(mk[0].args) > 1 and "sourceMapping" in unparse(mk[0].args[1]), "R20.2", f"{PARSER}::NslParser.__GetLocation mapping",
               "every location carries the parser's source mapping", "locations are created without the parser's source mapping", PARSER, gl)
     # ---------------- R20.2 ----------------------------------------------------
